@@ -170,6 +170,8 @@ def after_cycle(ci):
             if depth < 6:
                 fill(v, depth + 1)
     fill(ci.variants)
+    if any("-" in v.uid and v.variants for v in ci.variants.variants.values() if isinstance(v.uid, str)):
+        return None                      # a dashed top-level UID with children: outside the property's range (observation O11)
     before = _walk(ci.variants)
     uids = [b[1] for b in before]
     if len(uids) != len(set(uids)):
